@@ -136,6 +136,9 @@ def run(ctx):
         prog = ctx.prog(cfg)
         lv = gate.Leaves(prog)
         _txn_insertion(ctx, cfg, prog, ctx.mod(cfg))
+        import twins
+        ctx.rule('TWIN', 'insert and insert_with_statistics call the same functions (statistics bookkeeping aside)')
+        twins.check(ctx, cfg, prog, 'TWIN', lambda q_: q_.rsplit('::', 1)[-1].startswith('insert'), 1)
         idkeep.check(ctx, cfg, prog, ctx.mod(cfg), 'IDENT',
                      lambda o: o.rsplit('::', 1)[-1] in ('insert_transactional', 'canonicalize_vertex_for_insertion'), 2)
         for q in (SAFETY_NET, FALLBACK, VAI, VRTL, MAYBE_REPAIR, MAYBE_CHECK, NORMALIZE, ORIENT, RIDGE_LOCAL):
